@@ -2250,6 +2250,7 @@ class OrderedNamespaceSet(NamespaceSet[_NSO], MutableSequence[_NSO], Generic[_NS
     def insert(self, index: int, object_: _NSO) -> None:
         # list.insert() refuses an index that is not an integer - but only after the object has been added to the backend
         index = operator.index(index)
+        [].insert(index, None)  # OverflowError for an integer that list.insert() cannot take (e.g. 2**70)
         super().add(object_)
         self._order.insert(index, object_)
 
